@@ -101,6 +101,9 @@ structure State where
   upgrade : Int × String := (0, "")  -- the upgrade plan (height, version) of the gov parameter store
   keyNodes : List (Nat × Nat) := []  -- key index -> number of keys below it (0: a plain key; a multisignature key counts
                                      -- its components, components of components, ...)
+  accts : List (Addr × Unit) := []   -- the accounts that exist in the auth store (a credit creates the account; it stays
+                                     -- when its balance returns to zero)
+  keyed : List Addr := []            -- the accounts that carry a public key (genesis accounts; nothing stores a key later)
   deriving Repr
 
 def forever : Int := -1
@@ -113,12 +116,17 @@ def balOf (s : State) (a : Addr) : Int := (aget s.bal a).getD 0
 def setBal (s : State) (a : Addr) (x : Int) : State :=
   { s with bal := if x == 0 then adel s.bal a else aset s.bal a x }
 
+/-- `AddCoins` writes the receiving account: it exists from then on -/
+def touch (s : State) (a : Addr) : State := { s with accts := aset s.accts a () }
+
+def acctExists (s : State) (a : Addr) : Bool := (aget s.accts a).isSome
+
 /-- `SubtractCoins` then `AddCoins`; `none` = error (insufficient funds). `amt ≥ 0`. -/
 def send (s : State) (src dst : Addr) (amt : Int) : Option State :=
   if balOf s src < amt then none
   else
     let s1 := setBal s src (balOf s src - amt)
-    some (setBal s1 dst (balOf s1 dst + amt))
+    some (touch (setBal s1 dst (balOf s1 dst + amt)) dst)
 
 def mint (s : State) (acc : Addr) (amt : Int) : State :=
   { setBal s acc (balOf s acc + amt) with supply := s.supply + amt }
@@ -683,8 +691,8 @@ def anteOK (s : State) (t : Tx) (simulate : Bool) : Bool :=
      -- the key that came with the transaction may be a multisignature key (stored keys are plain)
      (!t.pk || sigDepthOK s t.signer) &&
      (simulate || t.sigValid s verif) &&
-     -- DeductFees
-     balOf s signer ≥ t.feeEff) &&
+     -- DeductFees: the signer's account must exist (`GetSignerAcc`) and cover the fee
+     acctExists s signer && balOf s signer ≥ t.feeEff) &&
   -- the part of the fee in the second denomination: a valid amount, covered by the signer's balance
   t.fee2 ≥ 0 && balOf2 s signer ≥ t.fee2
 
@@ -739,7 +747,8 @@ def genesis (g : Genesis) : State × List (Addr × Int) :=
     pool := g.pool, feeAcc := g.feeAcc, posAcc := g.posAcc, daoAcc := g.daoAcc,
     keys := g.keys, nStored := g.nStored, height := 0, time := 0, cHeight := 0, cTime := 0, index := [], blockTxs := [],
     bal2 := g.accs2.foldl (fun m e => if e.2 == 0 then m else aset m e.1 e.2) [],
-    supply2 := g.accs2.foldl (fun t e => t + e.2) 0, keyNodes := g.keyNodes }
+    supply2 := g.accs2.foldl (fun t e => t + e.2) 0, keyNodes := g.keyNodes,
+    accts := g.accs.foldl (fun m e => aset m e.1 ()) [], keyed := g.accs.map (·.1) }
   let s1 := g.accs.foldl (fun st e => { setBal st e.1 e.2 with supply := st.supply + e.2 }) s0
   let s2 := g.vals.foldl (fun st e =>
     let v : Val := { status := 2, jailed := false, tokens := e.2, unstake := 0 }
